@@ -14,6 +14,7 @@ import (
 	"sort"
 	"strconv"
 	"sync"
+	"sync/atomic"
 	"time"
 )
 
@@ -44,6 +45,7 @@ type Report struct {
 	vioKeys  map[string]int
 	start    time.Time
 	deadline time.Time
+	expired  atomic.Bool // set by a real-time goroutine (works inside a synctest bubble, where time.Now is virtual)
 }
 
 func Getenv(k, def string) string {
@@ -61,11 +63,17 @@ func atoi(s string, def int) int {
 	return n
 }
 
-func Tier() string     { return Getenv("VERIF_TIER", "quick") }
-func Thorough() bool   { return Tier() == "thorough" }
-func Seed() int        { return atoi(os.Getenv("VERIF_SEED"), 0) }
-func Shard() int       { return atoi(os.Getenv("VERIF_SHARD"), 0) }
-func NShard() int      { n := atoi(os.Getenv("VERIF_NSHARD"), 1); if n < 1 { n = 1 }; return n }
+func Tier() string   { return Getenv("VERIF_TIER", "quick") }
+func Thorough() bool { return Tier() == "thorough" }
+func Seed() int      { return atoi(os.Getenv("VERIF_SEED"), 0) }
+func Shard() int     { return atoi(os.Getenv("VERIF_SHARD"), 0) }
+func NShard() int {
+	n := atoi(os.Getenv("VERIF_NSHARD"), 1)
+	if n < 1 {
+		n = 1
+	}
+	return n
+}
 func ReplayPath() string { return os.Getenv("VERIF_REPLAY") }
 func Scratch() string {
 	d := Getenv("VERIF_SCRATCH", "")
@@ -86,6 +94,10 @@ func NewReport(property string) *Report {
 	dl := atoi(os.Getenv("VERIF_DEADLINE_S"), 0)
 	if dl > 0 {
 		r.deadline = r.start.Add(time.Duration(dl) * time.Second)
+		go func() {
+			time.Sleep(time.Duration(dl) * time.Second)
+			r.expired.Store(true)
+		}()
 	}
 	return r
 }
@@ -93,7 +105,7 @@ func NewReport(property string) *Report {
 // Expired reports whether the internal deadline passed; the caller stops exploring and the
 // report is marked non-exhaustive (never a verdict).
 func (r *Report) Expired() bool {
-	if r.deadline.IsZero() || time.Now().Before(r.deadline) {
+	if r.deadline.IsZero() || !r.expired.Load() {
 		return false
 	}
 	r.mu.Lock()
@@ -174,6 +186,9 @@ func (r *Report) Save() {
 	r.mu.Lock()
 	defer r.mu.Unlock()
 	r.WallS = time.Since(r.start).Seconds()
+	if r.WallS < 0 {
+		r.WallS = 0 // saved from inside a synctest bubble (virtual clock)
+	}
 	r.Distinct = int64(len(r.distinct))
 	out := os.Getenv("VERIF_OUT")
 	if out == "" {
